@@ -559,6 +559,8 @@ type job struct {
 
 var watchdog = 180 * time.Second
 
+var twinsNotApplicable int64
+
 type stats struct {
 	mu       sync.Mutex
 	states   map[string]bool
@@ -639,9 +641,13 @@ func runJob(p *chainx.Prefix, stName string, vs []variant, seq []int, side, hf b
 				impl2, ref2 := s.Deliver(v.name+" (honest block with the same hash)", tb)
 				atomic.AddInt64(trans, 1)
 				if ref2 != "" || !s.M.Valid(s.M.Nodes[tb.Hash()]) {
-					ev.HarnessError("variant %s: the reference refuses the honest twin: %s", v.name, ref2)
-				}
-				if k, w := s.Compare(); k != "" {
+					if qi == 0 {
+						ev.HarnessError("variant %s: the reference refuses the honest twin: %s", v.name, ref2)
+					}
+					// later in a sequence an earlier block may have made every successor invalid (a tip stamped
+					// now+7200 leaves no admissible timestamp): nothing to judge about the twin there
+					atomic.AddInt64(&twinsNotApplicable, 1)
+				} else if k, w := s.Compare(); k != "" {
 					out = &outcome{v.name + "/refusal-poisons-the-valid-block-with-the-same-hash", fmt.Sprintf("state %s: after the mutated body was refused, the honest block with the same header hash is not connected (%s); %s", stName, impl2, w), s.Trace}
 					return
 				}
@@ -912,6 +918,7 @@ func main() {
 		"histories":                     int(hist),
 		"chain_states":                  len(defs),
 		"variants":                      len(vs),
+		"twin_deliveries_without_admissible_twin": int(twinsNotApplicable),
 		"refusals_by_rule":              st.refused,
 		"accepted_blocks":               st.accepted,
 		"valid_blocks_not_connected":    lost,
